@@ -887,6 +887,12 @@ class TraceMonitor(Base):
     def on_solver(self, solver):
         self.solver = solver
         self.probe = solver.probe_points
+        # the probe sites, re-derived by the harness: the mesh site closest to each probe point, in the order the user listed them
+        dev_ = getattr(solver, "device", None)
+        pp_ = getattr(dev_, "probe_points", None)
+        if self.probe is not None and pp_ is not None:
+            pts_ = np.asarray(dev_.points, dtype=float)
+            self.probe = np.array([int(np.argmin(np.sum((pts_ - np.asarray(q_, dtype=float)[:2]) ** 2, axis=1))) for q_ in np.atleast_2d(np.asarray(pp_, dtype=float))], dtype=np.int64)
 
     def on_tempdir(self, path):
         self.tempdirs.append(path)
